@@ -69,9 +69,9 @@ def run(ctx):
     if thorough:
         tri = ctx.tlc("MC_C16", cfg('{"GET", "SET", "SETNX", "INCR", "APPEND", "MSETNX"}', True, ["Export"]), name="MC_C16_triples",
                       workers=vlib.NCPU, timeout=2400)
-        tsc = tri.scenarios          # every triple schedule is explored by TLC at design level; a seeded sample of 20000 is forced
-        if len(tsc) > 20000:
-            tsc = random.Random(ctx.seed).sample(tsc, 20000)
+        tsc = tri.scenarios          # every triple schedule is explored by TLC at design level; a seeded sample of 6000 is forced
+        if len(tsc) > 6000:
+            tsc = random.Random(ctx.seed).sample(tsc, 6000)
         forced += [json.loads(s) for s in tsc]
     ex = [dict(s, handler="example") for s in forced[::7]]        # a sample against the bundled example store as well
     rng = random.Random(ctx.seed)
